@@ -370,8 +370,16 @@ pub fn record(runs: usize, path: &str) {
         };
         if forest.roots().len() != 1 || !forest.roots().contains_key("main") { continue; }
         out.emit(&render_event(&text, &forest));
-        // the committed program, named afresh
-        let commit = forest.roots()["main"].to_commit_node();
+        // the committed program, built through the construction API (not through the parser), named afresh
+        let direct = guarded(|| types::Context::with_context(|ctx| {
+            let mut built: Vec<CN> = vec![];
+            for nd in nodes.iter() {
+                let get = |k: usize| built[k - 1].clone();
+                built.push(build_node(&ctx, Family::Core, nd, &get).ok()?);
+            }
+            built.last().unwrap().finalize_types().ok()
+        })).ok().flatten();
+        let commit = direct.unwrap_or_else(|| forest.roots()["main"].to_commit_node());
         let f2 = Forest::from_program(commit);
         out.emit(&render_event("", &f2));
         done += 1;
@@ -425,6 +433,46 @@ pub fn parse1(path: &str) {
     let s = std::fs::read_to_string(path).unwrap();
     let class = match guarded(|| Forest::parse::<Core>(&s)) { Err(p) => format!("panic: {}", p), Ok(Err(_)) => "error".into(), Ok(Ok(_)) => "ok".to_string() };
     println!("{}", json!({"class": class}));
+}
+
+/// an expression of type T -> 1 whose source type inference can only solve as T (display-normal JSON type)
+fn elim_text(t: &J) -> String {
+    match t[0].as_str().unwrap() {
+        "1" => "unit".to_string(),
+        "w" => {
+            let n = t[1].as_u64().unwrap();
+            if n == 0 { elim_text(&json!(["+", ["1"], ["1"]])) } else { elim_text(&json!(["*", ["w", n - 1], ["w", n - 1]])) }
+        }
+        "+" => format!("comp (pair iden unit) (case (take ({})) (take ({})))", elim_text(&t[1]), elim_text(&t[2])),
+        _ => format!("comp (pair (take ({})) (drop ({}))) unit", elim_text(&t[1]), elim_text(&t[2])),
+    }
+}
+
+/// spec -> impl for the type syntax: for every type T the spec enumerated, the program `main := comp witness E_T`
+/// (E_T : T -> 1 forces T) is parsed, the witness's target must be T, the rendering of its line must show T with
+/// exactly the spec's tokens, and the rendering must read back.
+pub fn types(path: &str) {
+    let mut out = Out::stdout();
+    for (k, case) in read_ndjson(path).iter().enumerate() {
+        let text = format!("main := comp witness ({})", elim_text(&case["ty"]));
+        let got = match guarded(|| Forest::parse::<Core>(&text)) {
+            Err(p) => json!({"class": "parse-panic", "msg": p}),
+            Ok(Err(e)) => json!({"class": "parse-error", "msg": e.to_string()}),
+            Ok(Ok(f)) => {
+                let mut r = roundtrip(&f);
+                let main = &f.roots()["main"];
+                let wit = main.left_child().expect("comp");
+                r["ty_ok"] = json!(ty_hz(&wit.arrow().target) == case["ty"]);
+                if let Ok(t) = guarded(|| f.string_serialize()) {
+                    // the witness line: tokens after "->"
+                    let line = tokens(&t, false).into_iter().find(|l| l.iter().any(|x| x == &json!(["p", "witness"])));
+                    r["toks"] = match line { Some(l) => { let p = l.iter().position(|x| x == &json!(["p", "->"])).unwrap_or(0); json!(l[p + 1..].to_vec()) } None => json!([]) };
+                }
+                r
+            }
+        };
+        out.emit(&json!({"k": k, "got": got}));
+    }
 }
 
 pub fn probe(text: &str) {
